@@ -208,6 +208,7 @@ fn check_spec(rep: &Report, scratch: &Scratch, sp: &PSpec) {
                 trailing_newline: true,
             });
             rep.tv(1);
+            rep.tr(1);
             rep.add("project_runs", 1);
             let desc = format!("project {:?} inputs={:?} mode={:?}", sp.to_json().to_string(), inputs, mode);
             let rj = json!({"engine": "E-proj", "spec": sp.to_json(), "inputs": inputs, "recursive": recursive, "mode": format!("{:?}", mode)});
@@ -276,6 +277,7 @@ pub fn run_into(rep: &Report) {
                 break;
             }
             check_spec(rep, &scratch, &sp[i]);
+            rep.st(1);
             if i == 777 || (sp.len() < 777 && i == 100) {
                 rep.sample(json!({"multi_file_project": sp[i].tree().iter().filter_map(|(k, v)| match v { Node::File(b) => Some((k.clone(), show(b))), _ => None }).collect::<std::collections::BTreeMap<_, _>>()}));
             }
